@@ -237,7 +237,7 @@ def parse_expr(s):
 
 
 KEYWORDS = ('spec', 'define', 'axiom', 'lemma', 'func', 'requires', 'ensures', 'assigns', 'allocates',
-            'loop', 'invariant', 'decreases', 'flag', 'ghostvar', 'call', 'import', 'at', 'property', 'end')
+            'loop', 'invariant', 'decreases', 'flag', 'ghostvar', 'call', 'import', 'at', 'property', 'end', 'step')
 
 
 def _label(s):
@@ -313,7 +313,7 @@ def parse_contract_text(text, fname='?'):
                 raise SpecError('%s: clause %s outside func' % (fname, kw))
             elif kw == 'loop':
                 k = int(rest.strip())
-                curloop = cur['loops'].setdefault(k, {'invariant': [], 'decreases': None, 'assigns': None})
+                curloop = cur['loops'].setdefault(k, {'invariant': [], 'decreases': None, 'assigns': None, 'step': []})
             elif kw == 'requires':
                 lab, r = _label(rest)
                 cur['requires'].append((lab, parse_expr(r), r))
@@ -325,6 +325,15 @@ def parse_contract_text(text, fname='?'):
             elif kw == 'invariant':
                 lab, r = _label(rest)
                 curloop['invariant'].append((lab, parse_expr(r), r))
+            elif kw == 'step':
+                lab, r = _label(rest)
+                curloop['step'].append((lab, parse_expr(r), r))
+            elif kw == 'call':
+                # call <callee key> [label] expr   -- assertion at every call site of that callee in this function
+                m = re.match(r'\s*(\S+)\s+(.*)$', rest, re.S)
+                lab, r = _label(m.group(2))
+                cur.setdefault('calls', []).append((m.group(1), lab, parse_expr(r), r))
+                curloop = None
             elif kw == 'decreases':
                 tgt = curloop if curloop is not None else cur
                 tgt['decreases'] = (parse_expr(rest), rest)
